@@ -216,6 +216,11 @@ def discard (m : Machine σ β ρ) (n : Node σ) (b : β) : Node σ :=
   let _ := m.step n.committed b
   n
 
+/-- the CALL PATH by which the process reaches the block execution (a direct call, the ABCI local client, socket server,
+    handshake replay, block sync; the frames below it; the directory the binary was built from) is an explicit parameter
+    that `exec` ignores: it is not an input of `step` -/
+def execVia (m : Machine σ β ρ) (_path : List String) (n : Node σ) (b : β) : Node σ × ρ := m.exec n b
+
 /-- a fresh process opened on the committed database of `n` -/
 def forkOf (n : Node σ) : Node σ := { committed := n.committed }
 end Machine
@@ -269,7 +274,7 @@ def classes : List String :=
    "abigen-binding-unreachable", "hasher-pool", "vendored-ethash-pure-computation", "vendored-ethash-progress-logging",
    "vendored-ethash-mining-unreachable", "vendored-ethash-dataset-unreachable", "vendored-ethash-disk-cache-disabled",
    "vendored-ethash-future-cache", "vendored-ethash-sealer-loop-idle", "sorted-before-use", "order-independent-body", "startup-wiring",
-   "constant-table", "deterministic-memo", "vendored-ethash-per-call-instance", "read-only-lookup"]
+   "constant-table", "deterministic-memo", "vendored-ethash-per-call-instance", "read-only-lookup", "deterministic-error-text"]
 
 /-- theorems of `Proofs/C14.lean` that an inventoried site may name as its discharge -/
 def theoremNames : List String :=
